@@ -140,6 +140,14 @@ class SymBackend(BackendBase):
         self.ingredients[name] = ("real", v, u)
         return SFloat(u, v)
 
+    def pynum(self, name, nonneg=False):
+        """a JSON / Python number (division by zero raises)"""
+        v = z3.Real(name)
+        if nonneg:
+            self.c.assume(v >= 0)
+        self.ingredients[name] = ("real", v, False)
+        return core.SPyNum(False, v)
+
     def integer(self, name, lo=None, hi=None):
         v = z3.Int(name)
         if lo is not None:
@@ -578,6 +586,9 @@ class ConcreteBackend(BackendBase):
     def real(self, name, nonneg=False, maybe_nan=False):
         return self.np.float64(self.values[name])
 
+    def pynum(self, name, nonneg=False):
+        return float(self.values[name])
+
     def integer(self, name, lo=None, hi=None):
         return int(self.values[name])
 
@@ -773,6 +784,13 @@ class RandomConcreteBackend(ConcreteBackend):
             v = -v
         if maybe_nan and self.rnd.random() < 0.15:
             v = float("nan")
+        self.values[name] = v
+        return v
+
+    def pynum(self, name, nonneg=False):
+        v = float(self.rnd.choice([0, 0, 1, 2, 3, 5, 0.5, 2.25]))
+        if not nonneg and self.rnd.random() < 0.3:
+            v = -v
         self.values[name] = v
         return v
 
